@@ -30,7 +30,10 @@ R3  code->spec: seeded random histories (50 calls, dimension <= 5, wider alphabe
     Matrix functions (ExpPow.tla): Dense.Exp on nilpotent dyadic matrices (finite exponential series evaluated
     by TLC; the norm is placed at / just above every threshold of the Pade / scaling-and-squaring algorithm and
     the run is undecided unless all 13 paths were executed), Dense.Pow (repeated product, exact), SymDense.PowPSD
-    (Hadamard-planted spectra, exponents r/6), in every receiver / operand mode.
+    (Hadamard-planted spectra, exponents r/6), in every receiver / operand mode; exactly singular positive
+    semi-definite inputs (zero matrix, 1x1 [0], diagonal with 1 or 2 zeros, a dense positive definite block bordered by
+    zero rows / columns; theorem SingularPsd) x powers {-2,-1,-1/2,0,1/2,1,2}: the documented error is a must (the run
+    is undecided unless such calls were executed); Hadamard-planted zeros: either answer is accepted.
     Destinations and operands (Extract.tla, extends Planted.tla): every accessor of every factorization type into
     an empty / pre-sized junk / window-of-a-larger-junk-matrix / wrong destination, every Matrix / Vector /
     Symmetric argument of every Factorize / Solve / update entry point as plain, strided window, transposed,
@@ -39,6 +42,10 @@ R3  code->spec: seeded random histories (50 calls, dimension <= 5, wider alphabe
     decompositions and refutes it on corrupted ones), evaluated by the harness in exact rationals on what
     mat.GSVD returned for every pair shape m,p<=4, n<=5 (generic, rank deficient, zero / duplicated leading
     columns), every subset of the job flags, every destination mode.  The weaker binding: a predicate, not a value.
+    HOGSVD instances include matrices with different row counts (3x2 then 5x2, 2x2 then 5x2, 4x3 then 7x3, 1x1 then 3x1,
+    3x1 then 6x1 and the reverse orders); every Factorize is followed by the specification's pool probe (Extract!HogProbe:
+    Pow of a 4x4 matrix, receiver-aliased products and solves borrowing 4, 8, 16, 32-element workspaces) whose results
+    must be the exact integer matrices the specification prints and must not panic.
 """
 import os
 
@@ -141,6 +148,9 @@ def run(ctx):
         if missing:
             from vlib import Undecided
             raise Undecided("vacuous: Exp norm classes never executed [%s]: %s" % (bn, missing))
+        if not summ.get("extra", {}).get("powpsd_singular_exact_error") and not ctx.violations:
+            from vlib import Undecided
+            raise Undecided("vacuous: no PowPSD call on an exactly singular positive semi-definite matrix was executed [%s]" % bn)
 
     # ---- R3: recorded random histories of the real objects, validated by TLC -----------------
     import shutil
